@@ -61,3 +61,16 @@ func CaseSeed(seed uint64, prop string, i int) uint64 {
 	r := NewRng(seed ^ h.Sum64() ^ (uint64(i)+1)*0xD6E8FEB86659FD93)
 	return r.U64()
 }
+
+// Perm returns a pseudo-random permutation of [0,n).
+func (r *Rng) Perm(n int) []int {
+	p := make([]int, n)
+	for i := range p {
+		p[i] = i
+	}
+	for i := n - 1; i > 0; i-- {
+		j := r.Intn(i + 1)
+		p[i], p[j] = p[j], p[i]
+	}
+	return p
+}
